@@ -112,7 +112,7 @@ Inductive astate :=
 | SFirst (o : option value)
 | SLast (o : option value)
 | SCollect (l : list value)
-| SPanic     (** [*sum += v] overflowed (overflow-checked build) *)
+| SPanic     (** unused since a66b89b (before: [*sum += v] overflowed in an overflow-checked build) *)
 | SOut.      (** the input left the modelled domain *)
 
 Definition agg_col (f : aggf) : option nat :=
@@ -140,7 +140,8 @@ Definition agg_step (m : mode) (st : astate) (v : value) : astate :=
   | SCount n => SCount (n + 1)
   | SSum s =>
       match v with
-      | VInt i => match add_i64 m s i with Ok r => SSum r | Panic => SPanic end
+      (* a66b89b: [sum.checked_add(v)], and on overflow the sum continues as a FLOAT sum (not interpreted) *)
+      | VInt i => if in_i64b (s + i) then SSum (s + i) else SOut
       | VFloat _ => SOut
       | VStr x => if numeric_like x then SOut else SSum s
       | _ => SSum s
@@ -173,6 +174,11 @@ Definition agg_step (m : mode) (st : astate) (v : value) : astate :=
   | SPanic => SPanic
   | SOut => SOut
   end.
+
+(** BEFORE a66b89b (finding C11-K10, fixed): [AggregateState::SumInt] did [*sum += v] — a panic in an
+    overflow-checked build, a silent wrap-around in a release build *)
+Definition sum_fold_pre (m : mode) (l : list Z) : res Z :=
+  fold_left (fun acc i => rbind acc (fun s => add_i64 m s i)) l (Ok 0).
 
 (** one row: COUNT-star always counts; every other function skips a missing column and a NULL *)
 Definition agg_update2 (m : mode) (r : row) (f : aggf) (st : astate) : astate :=
@@ -225,9 +231,9 @@ Definition hash_groups2 (m : mode) (gcols : list nat) (aggs : list aggf) (rows :
 Definition group_row2 (tys : list ltype) (g : group2) : row :=
   map keypart_value (fst g) ++ final_row tys (snd g).
 
-(** [ValueVector::set_null] allocates the validity bitmap with the length the vector has at the
-    FIRST null and no push ever extends it: a later NULL pushed into a TYPED vector is not recorded
-    and reads back as the default value of the type (a vector of type Any stores the NULL itself).
+(** BEFORE dfd360c [ValueVector::set_null] allocated the validity bitmap with the length the vector had at
+    the FIRST null and no push ever extended it: a later NULL pushed into a TYPED vector was not recorded
+    and read back as the default value of the type (a vector of type Any stores the NULL itself).
     The aggregate results of one output chunk (2048 groups) go through one vector per column. *)
 Definition default_of (t : ltype) : value :=
   match t with TAny => VNull | TInt => VInt 0 | TFloat => VFloat 0 | TBool => VBool false | TStr => VStr [] end.
@@ -255,21 +261,20 @@ Definition hash_agg2_v (lossy : bool) (m : mode) (gcols : list nat) (aggs : list
            (cs : list chunk) : res (list row) :=
   let gs := hash_groups2 m gcols aggs (rows_of cs) in
   if existsb (fun g => existsb st_panic (snd g)) gs then Panic else Ok (hash_agg2_rows lossy tys gs).
-(** the code as it is / with the PROPOSED repair proposed-fixes/C11-vector-validity.diff (finding C11-K11) *)
-Definition hash_agg2 := hash_agg2_v true.
-Definition hash_agg2_fix := hash_agg2_v false.
+(** before dfd360c (finding C11-K11, fixed: only the first NULL of a typed vector was recorded) / the code as it is NOW *)
+Definition hash_agg2_pre := hash_agg2_v true.
+Definition hash_agg2 := hash_agg2_v false.
 
-(** the types the planner ([plan_aggregate]) gives the result vectors *)
-Definition planner_type (f : aggf) : ltype :=
+(** the types the planner ([plan_aggregate]) gave the result vectors BEFORE 41c4655 (finding C11-K9, fixed) *)
+Definition planner_type_pre (f : aggf) : ltype :=
   match f with
   | FCountStar | FCount _ | FSum _ | FMin _ | FMax _ => TInt
   | FAvg _ => TFloat
   | FFirst _ | FLast _ | FCollect _ => TAny
   end.
 
-(** PROPOSED repair proposed-fixes/C11-aggregate-result-types.diff (finding C11-K9): SUM, MIN and MAX
-    results go into a vector of type Any, like COLLECT *)
-Definition planner_type_fix (f : aggf) : ltype :=
+(** ... and gives them NOW (41c4655): SUM, MIN and MAX results go into a vector of type Any, like COLLECT *)
+Definition planner_type (f : aggf) : ltype :=
   match f with
   | FCountStar | FCount _ => TInt
   | FAvg _ => TFloat
